@@ -117,6 +117,25 @@ func c11R2(c *Ctx) {
 	if !found {
 		c.bad("nextBuffer/arms", c.pos(nb.Pos()), "no blocking select in nextBuffer")
 	}
+	// a swapped-in timer is used once: the pending slot is cleared before waiting again
+	eachInstr(nb, func(in ssa.Instruction) {
+		st, ok := in.(*ssa.Store)
+		if !ok {
+			return
+		}
+		if n, _ := fieldAddrName(st.Addr); n != "trzszBuffer.timeout" || !isFieldLoad("newTimeout")(st.Val) {
+			return
+		}
+		hit, path := reachAvoid(st, func(x ssa.Instruction) bool { _, isSel := x.(*ssa.Select); return isSel }, func(x ssa.Instruction) bool {
+			s2, ok := x.(*ssa.Store)
+			if !ok {
+				return false
+			}
+			n2, _ := fieldAddrName(s2.Addr)
+			return n2 == "trzszBuffer.newTimeout" && isNilConst(s2.Val)
+		})
+		c.check(hit == nil, "nextBuffer/pending-timer-cleared", c.ipos(st), "after swapping the fresh timer in, the pending slot is cleared", "the pending timer is not cleared after it was swapped in: when it fires it is installed again and the wait never ends", c.pathStr(path)...)
+	})
 }
 
 func c11R3(c *Ctx) {
@@ -236,6 +255,18 @@ func c11R4(c *Ctx) {
 		for _, s := range callsIn(f, idIs(tT+"sendString", tT+"serverExit")) {
 			c.check(domI(ci[0].(ssa.Instruction), s.(ssa.Instruction)), name+"/drain-first", c.ipos(s), "input is drained before the fail line is written", "fail line written before draining input")
 		}
+	}
+	// the fail line is written after cleanInput latched 'stopped': nothing on the reporter's write path may be gated by the stop flag
+	stopGates := map[string]bool{"trzszTransfer.checkStop": true, "trzszTransfer.checkStopAndPause": true}
+	for _, name := range []string{"trzszTransfer.sendString", "trzszTransfer.sendLine", "trzszTransfer.writeAll", "trzszTransfer.sendInteger", "trzszTransfer.sendBinary"} {
+		f := c.fn(name)
+		gated := false
+		for g := range c.reachableNarrow(f) {
+			if stopGates[c.fnName(g)] {
+				gated = true
+			}
+		}
+		c.check(!gated, name+"/not-stop-gated", c.pos(f.Pos()), "the line writers used by the error reporters do not consult the stop flag", "a line writer on the error reporters' path checks the stop flag: after cleanInput set it, the fail line is never written and the peer only times out")
 	}
 	// panic containment of the handler goroutines (note for C12 as well)
 	for _, x := range []string{"TrzszFilter.handleTrzsz$1", "TrzMain", "TszMain"} {
